@@ -53,7 +53,7 @@ pub struct Device {
 
 use DisabledOptions::*;
 
-use crate::instruction::operation::Operation;
+use crate::instruction::{operation::Operation, register::Reg16, IndexOps, InstructionOps};
 
 impl Device {
     pub fn new(flash_size: u32) -> Self {
@@ -69,8 +69,13 @@ impl Device {
 
     pub fn check_operation(&self, op: &Operation) -> bool {
         match op {
-            Operation::Mul => self.allow(NoMul),
-            Operation::Jmp => self.allow(NoJmp),
+            Operation::Mul
+            | Operation::Muls
+            | Operation::Mulsu
+            | Operation::Fmul
+            | Operation::Fmuls
+            | Operation::Fmulsu => self.allow(NoMul),
+            Operation::Jmp | Operation::Call => self.allow(NoJmp),
             Operation::Lpm => self.allow(NoLpm),
             Operation::Elpm => self.allow(NoElpm),
             Operation::Spm => self.allow(NoSpm),
@@ -98,6 +103,38 @@ impl Device {
                 } else {
                     false
                 }
+            }
+            _ => true,
+        }
+    }
+
+    /// Like check_operation, but also looks at the addressing form the operands select
+    pub fn check_instruction(&self, op: &Operation, op_args: &[InstructionOps]) -> bool {
+        if !self.check_operation(op) {
+            return false;
+        }
+        match op {
+            // LPM Rd, Z and LPM Rd, Z+
+            Operation::Lpm if !op_args.is_empty() => self.allow(NoLpmX),
+            // ELPM Rd, Z and ELPM Rd, Z+
+            Operation::Elpm if !op_args.is_empty() => self.allow(NoElpmX),
+            Operation::Ld | Operation::St | Operation::Ldd | Operation::Std => {
+                op_args.iter().all(|arg| match arg {
+                    InstructionOps::Index(index) => {
+                        let (pointer, displacement) = match index {
+                            IndexOps::None(r16)
+                            | IndexOps::PostIncrement(r16)
+                            | IndexOps::PreDecrement(r16) => (r16, false),
+                            IndexOps::PostIncrementE(r16, _) => (r16, true),
+                        };
+                        (match pointer {
+                            Reg16::X => self.allow(NoXreg),
+                            Reg16::Y => self.allow(NoYreg),
+                            Reg16::Z => true,
+                        }) && (!displacement || self.allow(Tiny1x))
+                    }
+                    _ => true,
+                })
             }
             _ => true,
         }
